@@ -44,7 +44,10 @@ class Ctx:
     def sub(self, body, params=None, captures=None):
         """context of a callee / closure analysed on behalf of this one: same world assumptions."""
         c = Ctx(body, params=params, captures=captures, assumptions=self.assumptions)
-        return c.settle() if self.assumptions else c
+        c.level = self.level
+        # settled: branches decided by the arguments (a mode flag, a fresh enum value) or by the
+        # world are pruned in the callee as well
+        return c.settle()
 
     def assume_bool(self, pred, value):
         """world assumption: every boolean term accepted by `pred` has truth value `value`
@@ -91,7 +94,23 @@ class Ctx:
     def _assumed_ok(self, subj):
         return assumed_ok(self.assumptions, subj)
 
-    def _assumed(self, t):
+    def _assumed(self, t, _d=0):
+        if self.assumptions and t[0] == "payload":
+            # `helper(..)?` where the helper answers Ok(bool): evaluate it in this world
+            c0 = t[1][1] if t[1][0] == "trybranch" else t[1]
+            if c0[0] == "call":
+                cb = _callee_body(self.prog, c0)
+                if cb is not None and cb.kind == "fn" and len(cb.blocks) < 200:
+                    rt = self._callee_return(c0, cb)
+                    if rt is not None:
+                        v = ok_payload(rt)
+                        if v[0] == "const" and v[1] == "bool":
+                            return v
+                        if v[0] != "payload" and _d < 2:
+                            # the helper returns the test itself (`Ok(a == b)`): decide it here
+                            v2 = self._assumed(v, _d + 1)
+                            if v2[0] == "const" and v2[1] == "bool":
+                                return v2
         if self.assumptions and getattr(self, "prog", None) is not None and t[0] == "call":
             # a boolean computed by a small local function: evaluate it under the same assumptions
             cb = _callee_body(self.prog, t)
@@ -99,6 +118,10 @@ class Ctx:
                 rt = self._callee_return(t, cb)
                 if rt is not None and rt[0] == "const" and rt[1] == "bool":
                     return rt
+                if rt is not None and rt[0] in ("call", "bin", "un") and _d < 2:
+                    v2 = self._assumed(rt, _d + 1)
+                    if v2[0] == "const" and v2[1] == "bool":
+                        return v2
         if t[0] == "call" and t[1] in IS_TESTS and t[2]:
             a = self._assumed_ok(t[2][0])
             if a is not None:
